@@ -206,7 +206,7 @@ impl<E: ElemT> TableDrv<E> {
             if (ev.op == "t_insert_unique" || ev.op == "t_remove_reinsert") && std::mem::size_of::<E>() != 0 {
                 let k = ev.k as u32;
                 let h = env::plan_hash(0, k);
-                if ev.op == "t_insert_unique" && self.tabs[ev.t - 1].as_ref().map_or(false, |m| m.find(h, |e| e.class() == k).is_some()) {
+                if ev.op == "t_insert_unique" && self.tabs[ev.t - 1].as_ref().map_or(false, |m| m.find(h, |e| e.class() == k && e.h() == h).is_some()) {
                     ev.op = "t_find".into();
                 }
             }
@@ -263,13 +263,13 @@ impl<E: ElemT> TableDrv<E> {
                 ev.r = vec![o.get().id() as i64];
             }
             "t_find" => {
-                ev.r = match self.tab(t).find(h, |e| e.class() == k) {
+                ev.r = match self.tab(t).find(h, |e| e.class() == k && e.h() == h) {
                     Some(e) => vec![e.id() as i64, e.v() as i64],
                     None => vec![-1, -1],
                 };
             }
             "t_find_mut" => {
-                ev.r = match self.tab(t).find_mut(h, |e| e.class() == k) {
+                ev.r = match self.tab(t).find_mut(h, |e| e.class() == k && e.h() == h) {
                     Some(e) => {
                         e.set_v(vv);
                         vec![e.id() as i64, e.v() as i64]
@@ -280,7 +280,7 @@ impl<E: ElemT> TableDrv<E> {
             "t_entry_or_insert" | "t_entry_insert" | "t_entry_and_modify" | "t_entry_drop" => {
                 let op = ev.op.clone();
                 let m = self.tabs[t - 1].as_mut().unwrap();
-                let e = m.entry(h, |e| e.class() == k, hasher_of::<E>);
+                let e = m.entry(h, |e| e.class() == k && e.h() == h, hasher_of::<E>);
                 let occ = matches!(e, Entry::Occupied(_));
                 match op.as_str() {
                     "t_entry_or_insert" => {
@@ -317,7 +317,7 @@ impl<E: ElemT> TableDrv<E> {
             "t_remove" => {
                 let m = self.tabs[t - 1].as_mut().unwrap();
                 let mut kept = None;
-                ev.r = match m.find_entry(h, |e| e.class() == k) {
+                ev.r = match m.find_entry(h, |e| e.class() == k && e.h() == h) {
                     Ok(o) => {
                         let (old, _vac) = o.remove();
                         let r = vec![old.id() as i64, old.v() as i64];
@@ -332,7 +332,7 @@ impl<E: ElemT> TableDrv<E> {
                 // OccupiedEntry::remove followed by re-insertion through the returned VacantEntry
                 let m = self.tabs[t - 1].as_mut().unwrap();
                 let mut kept = None;
-                ev.r = match m.find_entry(h, |e| e.class() == k) {
+                ev.r = match m.find_entry(h, |e| e.class() == k && e.h() == h) {
                     Ok(o) => {
                         let (old, vac) = o.remove();
                         let el = E::make(k, vv, h);
@@ -348,7 +348,7 @@ impl<E: ElemT> TableDrv<E> {
             }
             "t_occ_get_mut" => {
                 let m = self.tabs[t - 1].as_mut().unwrap();
-                ev.r = match m.find_entry(h, |e| e.class() == k) {
+                ev.r = match m.find_entry(h, |e| e.class() == k && e.h() == h) {
                     Ok(mut o) => {
                         o.get_mut().set_v(vv);
                         let r = o.into_mut();
@@ -588,7 +588,7 @@ impl<E: ElemT> TableDrv<E> {
                         let mut hs = [0u64; $n];
                         hs.copy_from_slice(&hashes[..$n]);
                         let res: [Option<&mut E>; $n] =
-                            m.get_many_mut(hs, |i, e| e.class() == classes[i] || (sloppy && e.class() == classes[i] + 1));
+                            m.get_many_mut(hs, |i, e| (e.class() == classes[i] && e.h() == hashes[i]) || (sloppy && e.class() == classes[i] + 1));
                         for (i, o) in res.into_iter().enumerate() {
                             match o {
                                 Some(e) => {
